@@ -15,6 +15,7 @@ package main
 import (
 	"context"
 	"fmt"
+	"io"
 	"math/rand"
 	"os"
 	"sort"
@@ -584,6 +585,22 @@ func runScenario(r *ev.Run, id caseID) {
 			if _, err := l.CreateTable("extra"); err != nil {
 				r.Inconclusive("create extra: " + err.Error())
 			}
+			// an operator's restore into the replicated table t1 breaks off on the leader (its
+			// stream ends with an error): t1 is still there, served and written to - the follower
+			// keeps replicating it
+			var kvs []model.KV
+			for i := 0; i < 30; i++ {
+				kvs = append(kvs, model.KV{K: fmt.Sprintf("from-a-restore-that-broke-off-%02d", i), V: make([]byte, 1000)})
+			}
+			if rd, cleanup, err := cluster.SnapshotStream("t1", kvs, nil); err == nil {
+				rerr := le.Restore("t1", &breakingReader{r: rd, left: 12000})
+				cleanup()
+				if rerr == nil {
+					r.Inconclusive("[tables] the restore from a broken stream reported success")
+				} else {
+					r.Count("leader_restores_that_broke_off", 1)
+				}
+			}
 		}
 		wg.Wait()
 		injStop.Store(true)
@@ -1079,4 +1096,22 @@ func runOverlappingRounds(r *ev.Run, seed int64) {
 		}
 	}
 	r.Eval(1)
+}
+
+// breakingReader fails after `left` bytes.
+type breakingReader struct {
+	r    io.Reader
+	left int
+}
+
+func (b *breakingReader) Read(p []byte) (int, error) {
+	if b.left <= 0 {
+		return 0, fmt.Errorf("stream broken (injected)")
+	}
+	if len(p) > b.left {
+		p = p[:b.left]
+	}
+	n, err := b.r.Read(p)
+	b.left -= n
+	return n, err
 }
